@@ -17,7 +17,7 @@ def make_experiments(rng, comp, n, online, stated_mode, mixed_units):
         t = round(rng.uniform(273.0, 400.0), rng.choice([0, 1, 2, 6]))
         if all(abs(t - u) >= 1.0 for u in temps):
             temps.append(t)
-    ea_true = rng.uniform(-60000.0, 120000.0)
+    ea_true = rng.uniform(-60000.0, 120000.0) if rng.random() < 0.9 else 0.0
     p0, t0 = gen.logu(rng, 1e-6, 1.0), rng.uniform(273.0, 400.0)
     exps = []
     unit_all = rng.choice([KG, KG, "SI", "GPU"])
@@ -27,7 +27,7 @@ def make_experiments(rng, comp, n, online, stated_mode, mixed_units):
         else:
             p = gen.logu(rng, 1e-6, 1.0)
         if stated_mode == "all":
-            ea = ea_true if online else rng.uniform(-60000.0, 120000.0)
+            ea = ea_true if online else rng.choice([rng.uniform(-60000.0, 120000.0), 0.0])
         elif stated_mode == "none":
             ea = None
         else:
@@ -83,7 +83,7 @@ def record(tw, rng, n_membranes, stats):
                     d = sorted(abs(e["T"] - T) for e in exs)
                     if len(d) < 2 or d[1] - d[0] > 1e-6:        # no ties between nearest experiments
                         break
-            p = attempt(lambda: mem.get_permeance(T, comp).value)
+            p = attempt(lambda: mem.get_permeance(T, comp).convert(KG, comp).value)      # value in kg units, whatever unit is returned
             tr.append({"ev": "Query", "which": which + 1, "T": F(T), "p": p, "ea": ea_code[which]})
             stats["nontrivial"].add((j, which, T))
             # pure-component flux in the three permeate modes
@@ -98,6 +98,6 @@ def record(tw, rng, n_membranes, stats):
             T = rng.uniform(260.0, 420.0)
             sm = attempt(lambda: mem.get_ideal_selectivity(T, c1, c2, "molar"))
             sw = attempt(lambda: mem.get_ideal_selectivity(T, c1, c2, "weight"))
-            p1 = attempt(lambda: mem.get_permeance(T, c1).value)
-            p2 = attempt(lambda: mem.get_permeance(T, c2).value)
+            p1 = attempt(lambda: mem.get_permeance(T, c1).convert(KG, c1).value)
+            p2 = attempt(lambda: mem.get_permeance(T, c2).convert(KG, c2).value)
             tr.append({"ev": "Sel", "T": F(T), "selMolar": sm, "selWeight": sw, "p1": p1, "p2": p2})
